@@ -9,7 +9,8 @@
 // the main thread.  Built WITHOUT sanitizers (they replace the allocator themselves).
 //
 // stdin: case lines (format: coq/theories/Alloc/AllocRun.v)
-//   alloc <unb> <drop> <init> <max> <sso> <copyw> <sig> <tylen> <nargs> ty... <nops> op...
+//   alloc <mapcp> <unb> <drop> <init> <max> <sso> <copyw> <sig> <tylen> <nargs> ty... <nops> op...
+//   (<mapcp> selects the variant of the MODEL's map codecs; the harness drops it: the code is what it is)
 // stdout, per case, the same encoding as extract/modelrun:
 //   per op:  heap mmap res cap ivcap dirfmt defcaller
 // argv[1] (optional): side file, one line per case with the raw counters:
@@ -675,7 +676,11 @@ int main(int argc, char** argv)
   std::string model; std::vector<u64> a;
   while (vh::read_case(model, a))
   {
-    if (model == "alloc" && a.size() >= 10 && dispatch_sig(a[6] & 0xffff, a)) continue;
+    if (model == "alloc" && a.size() >= 11)
+    {
+      a.erase(a.begin());   // <mapcp>: the model's code-variant flag
+      if (dispatch_sig(a[6] & 0xffff, a)) continue;
+    }
     std::vector<u64> o{BAD - 1}; vh::print_line(o);
   }
   if (g_side) fclose(g_side);
